@@ -193,6 +193,103 @@ PROPS["C07"] = {
     "level_note": "Trusted: Verus/Z3, extractor rules (R14 closure parameter types, R9, R11), the assumed std::cmp::min semantics and Ordering equality axiom, the V<->K seam for the p-mer type. Preconditions derived from the code's own asserts and casts: m < 2^32, 2k-p <= 65535. The Kani harness m_scan_p2 is a bounded cross-check only (thorough tier).",
 }
 
+GRAPH_TRUST = [
+    "boomphf BoomHashMap/BoomHashMap2 = a finite map with key-verified get / get_key_id and pairwise distinct keys (graph_seam.inc; the MPHF itself is not verified)",
+    "bit_set::BitSet = a finite set of usize with contains / remove (graph_seam.inc); smallvec::SmallVec<[T;4]> = a vector with new / push",
+    "canon(s) is s or rc(s) and canon(rc s) == canon(s) (axiom_canon; the real min_rc / min_rc_flip are proved to compute the lexicographic minimum by Kani family k_min_rc)",
+]
+
+PROPS["C02"] = {
+    "title": "Nodes are exactly the maximal unbranched paths",
+    "kani": lambda tier: kfam(["k_min_rc", "k_extend_left", "k_extend_right"], tier)
+        + exts(["x_num_ext_dir", "x_get_unique_extension", "x_single_dir", "x_has_ext", "x_dir"]),
+    "verus": [("compress", None)],
+    "bounded": lambda tier: [],
+    "design_ref": "DESIGN.md §6 C02",
+    "undecided": [
+        "the global converse (a step refused only because the neighbour is no longer available is a legitimate boundary) and hence 'no two output nodes could be merged'; uniqueness of the decomposition",
+        "build_node / compress_kmers assembling the walked path into exactly one node (sequence, payload fold, terminal extensions) - see C01",
+        "CompressFromGraph::try_extend_node / extend_node (node-level walk) are not under contract"],
+    "trust": VERUS_TRUST + GRAPH_TRUST + [SEAM_NOTE,
+        "CompressionSpec::join_test is a deterministic predicate of the two payloads (join_spec)",
+        "precondition backlinks_ok: whenever a k-mer lists a base leading to a present non-palindromic neighbour, that neighbour lists at least one base on the facing side (the formal content of 'extensions reference only present k-mers'); it makes the panic!(\"unreachable\") branch provably unreachable"],
+    "level_text": "The link predicate of the statement is a machine-checked postcondition of the real CompressFromHash::try_extend_kmer: it returns Unique IF AND ONLY IF the k-mer has exactly one extension on that side, is not a palindrome (unstranded), the (canonicalised) neighbour is in the table and still available, is not a palindrome, has exactly one extension on the facing side and the join predicate accepts; and then names that neighbour, the flipped/unflipped walking direction and the far-side extensions. extend_kmer is proved (with termination) to walk only such links, to remove exactly the seed and the walked k-mers from the available set, and to stop only where the predicate fails (Verus, unbounded, on the extracted bodies).",
+    "level_note": "Partial claim: per-step and per-walk contracts are proved; the whole-run invariant (partition into nodes, maximality after all walks) is not - listed in undecided_clauses. Trusted: Verus/Z3, extractor rules, abstract BoomHashMap2/BitSet contracts, the V<->K seam for k-mer and Exts primitives.",
+}
+
+PROPS["C03"] = {
+    "title": "Extensions and edges denote exactly the real adjacencies, symmetrically",
+    "kani": lambda tier: exts(EXTS_ALL) + kfam(["k_rc", "k_extend_left", "k_extend_right"], tier),
+    "verus": [("graphfn", r"^(DebruijnGraph::|Node::|BaseGraph::)")],
+    "bounded": lambda tier: [("filter::verif::f_remove_censored_3", "3 table entries, Kmer4, both strandedness values"),
+                             ("filter::verif::f_remove_censored_sharded", "2 valid entries, 3 shard k-mers, Kmer4")],
+    "design_ref": "DESIGN.md §6 C03",
+    "undecided": [
+        "set of resolvable edges == set of observed (K+1)-mers (needs the C05 kernel and C01)",
+        "global symmetry u->v => v->u (a property of the constructed graph, not of one call)",
+        "max_path / max_path_beam (f32 scores, HashSet, closures) and sequence_of_path",
+        "remove_censored_exts(_sharded): only a bounded stand-in (binary_search_by_key with a closure is outside the Verus subset used here)"],
+    "trust": VERUS_TRUST + GRAPH_TRUST + [SEAM_NOTE,
+        "graph well-formedness (DebruijnGraph::wf): every node has >= K bases; left_order/right_order map exactly the first/last k-mers of the nodes to their ids"],
+    "level_text": "find_link is proved to return Some((id, side, flip)) only for a node whose terminal k-mer on `side` equals the query (its reverse complement when flip), with (dir, side, flip) one of the four consistent shapes, flip only when unstranded and only when no same-strand match exists, and None exactly when no node end matches; find_edges returns only resolved links of the node's own extension bases; get_valid_exts / fix_exts are proved exact: an extension is kept iff it was present and resolves to a valid (non-censored) node, dropped only if unresolvable or censored, and nothing but the extension vector changes (Verus, unbounded, real bodies incl. the check_node closure).",
+    "level_note": "Partial claim (see undecided_clauses). Trusted: Verus/Z3, extractor rules, abstract BoomHashMap/BitSet/SmallVec contracts, the V<->K seam. Table pruning (remove_censored_exts*) is a bounded Kani stand-in only.",
+}
+
+PROPS["C05"] = {
+    "title": "K-mer counting/filtering equals reference grouping for any pass count",
+    "kani": lambda tier: ["filter::verif::%s::f_bucket" % t for t in (ALL_TYPES if tier == "thorough" else QUICK_TYPES) if K_OF[t] >= 4]
+        + kfam(["k_canon", "k_min_rc"], tier, 4) + exts(["x_rc", "x_add", "x_merge", "x_mk"]),
+    "verus": [("passplan", None), ("kmeriter", r"^KmerExtsIter::next$|^Vmer::iter_kmer_exts$")],
+    "bounded": lambda tier: [("filter::verif::f_count_filter", "<= 6 observations")]
+        + ([("filter::verif::f_count_filter_set", "<= 3 observations, u8 labels")] if tier == "thorough" else []),
+    "design_ref": "DESIGN.md §6 C05",
+    "undecided": [
+        "the grouping kernel (per-bucket sort_by_key + itertools group_by + one summarize call per group + BoomHashMap2::new): iterator-adapter / third-party code neither verifier reaches, so 'each distinct k-mer summarised exactly once over exactly its observations in input order' is NOT decided",
+        "the half-open membership test `bucket >= start && bucket < end` is an expression inside that kernel; the plan lemma is stated over exactly that test but the expression itself is not extracted"],
+    "trust": VERUS_TRUST + [SEAM_NOTE, "R15: the pass-planning statement range of filter_kmers is verified inside a wrapper function of (kmer_mem, max_mem); max_mem > 0, kmer_mem < usize::MAX"],
+    "level_text": "Decided parts: (1) pass planning - the real statement range of filter_kmers is proved to produce between 1 and 256 non-empty consecutive bucket ranges starting at 0 whose last one reaches 256, and a lemma shows every bucket 0..255 falls in exactly one pass under the half-open test, for every memory budget (Verus, unbounded); (2) bucket() is the rank of the first four bases, < 256 and monotone in k-mer order, for all k-mer values (Kani, complete); (3) per-observation canonicalisation with extension flip (Kani, complete); (4) the k-mer-with-extensions iterator pairs each k-mer with its true flanks and uses boundary extensions only at the ends (Verus, unbounded).",
+    "level_note": "Partial claim: the grouping kernel is undecided (see undecided_clauses). Summarizers are bounded stand-ins only.",
+}
+
+PROPS["C06"] = {
+    "title": "Strand symmetry when unstranded, strand separation when stranded",
+    "kani": lambda tier: kfam(["k_canon", "k_min_rc", "k_rc"], tier) + exts(["x_rc", "x_complement", "x_reverse"]),
+    "verus": [("graphfn", r"^DebruijnGraph::(find_link|search_kmer)$"), ("compress", r"^CompressFromHash::try_extend_kmer$")],
+    "bounded": lambda tier: [],
+    "design_ref": "DESIGN.md §6 C06",
+    "undecided": ["invariance of the whole table / graph under reverse-complementing a subset of reads: a relational property of two runs through the undecided grouping kernel (C05) and the global construction (C01)"],
+    "trust": VERUS_TRUST + GRAPH_TRUST + [SEAM_NOTE],
+    "level_text": "Per-observation strand symmetry: on the real min_rc_flip + Exts::rc, an observation (k, e) and its reverse-complement observation (rc k, rc e) are proved to contribute the identical (key, extensions) pair (extensions unless k is its own reverse complement) and the key is the lexicographic minimum, for all k-mer values of every shipped type and all 256 extension sets (Kani, complete). Strand separation: find_link is proved to consult the reverse complement only when unstranded (flip => !stranded) and try_extend_kmer to use the un-canonicalised neighbour and unchanged direction when stranded (Verus).",
+    "level_note": "Partial claim (see undecided_clauses).",
+}
+
+PROPS["C09"] = {
+    "title": "Graph re-compression and node censoring are exact",
+    "kani": lambda tier: exts(["x_set", "x_has_ext"]),
+    "verus": [("graphfn", r"^DebruijnGraph::(fix_exts|get_valid_exts|find_link|search_kmer|get_node|len)$|^Node::")],
+    "bounded": lambda tier: [],
+    "design_ref": "DESIGN.md §6 C09",
+    "undecided": ["k-mer set of the result == k-mers of non-censored nodes; maximality; payload fold; idempotence; agreement with the direct route - all need build_node / sequence_of_path / the global invariant",
+                  "CompressFromGraph::try_extend_node / extend_node are not under contract"],
+    "trust": VERUS_TRUST + GRAPH_TRUST + [SEAM_NOTE],
+    "level_text": "Thin claim: the two pruning calls of compress_graph - fix_exts(Some(&available)) and fix_exts(None) - are proved to leave no extension pointing at a censored/removed node or at no node, and to drop nothing else (Verus, unbounded, real bodies).",
+    "level_note": "Thin partial claim; everything about the re-compressed node set itself is listed in undecided_clauses.",
+}
+
+PROPS["C08"] = {
+    "title": "Shard assignment is a pure, strand-symmetric function of the k-mer",
+    "kani": lambda tier: kfam(["k_min_rc", "k_to_u64", "k_rc"], tier, 2, 8) + exts(["x_from_slice_bounds"]) + lmer(["l_from_slice"], tier),
+    "verus": [("scan", r"^(Scanner::(scan|lemma_same_bucket|lemma_same_bucket_rc|lemma_min_over_kmer|lemma_result|lemma_iv_mid|lemma_iv_last|lemma_pair)|Exts::from_slice_bounds|lemma_sub_window|lemma_sub_window_rc|lemma_flank_bits)$")],
+    "bounded": lambda tier: [],
+    "design_ref": "DESIGN.md §6 C08",
+    "undecided": [
+        "msp_sequence itself (unwrap_or_else, closure score over the permutation table, into_iter().map().collect(), V::from_slice per piece): the composition 'each piece is the exact substring at (start, len)' is not under contract; its ingredients are (scan intervals: C07; flank extensions: from_slice_bounds; Lmer::from_slice: bounded Kani)",
+        "that a permutation-based score is injective on (rc-)classes and strand symmetric is a hypothesis of the lemmas (true of `perm[rank x]` / `min(perm[rank x], perm[rank rc x])` for a permutation `perm`; the real closure is not extracted)"],
+    "trust": VERUS_TRUST + [SEAM_NOTE],
+    "level_text": "Proved as lemmas over the verified contract of the real Scanner::scan (C07): for two scans - of any two reads - whose score functions agree and identify p-mers up to a class, two occurrences of the same k-mer (lemma_same_bucket) or an occurrence and a reverse-complement occurrence under a strand-symmetric score (lemma_same_bucket_rc) receive minimizers of the same class, hence the same bucket id (bucket = rank of the canonical minimizer; min_rc / to_u64 proved by Kani for all p-mer values). Exts::from_slice_bounds is proved to return exactly the read's two flanking bases and none at a read end, for every slice length (Verus, unbounded, real body).",
+    "level_note": "Partial claim (see undecided_clauses): the msp_sequence wrapper is not under contract. Trusted: Verus/Z3, extractor rules, the V<->K seam.",
+}
+
 PAIRED_KANI = {
     "verus:dnaslice::DnaStringSlice::hamming_dist": "dna_string::verif::d_slice_hamming_1024",
     "verus:dnaslice::DnaStringSlice::fmt_debug": "dna_string::verif::d_slice_render_3",
@@ -216,10 +313,4 @@ NOT_APPLICABLE = {
     "C04": "relational equivalence between two pipelines; follows only from global theorems (C01/C02/C09 + C05 kernel) that no contract here decides (DESIGN.md §6 C04)",
     "C19": "quantifies over thread schedules of boomphf's rayon builder: Kani has no threads, Verus would have to verify the third-party MPHF (DESIGN.md §6 C19)",
     "C20": "serde derive output and write!/format! byte streams judged by a parser: string/byte-grammar reasoning neither verifier supports (DESIGN.md §6 C20)",
-    "C02": "not built yet in this session (planned: Verus on try_extend_kmer / extend_kmer, DESIGN.md §6 C02)",
-    "C03": "not built yet in this session (planned: Verus on find_link / find_edges / pruning, DESIGN.md §6 C03)",
-    "C05": "not built yet in this session (planned, DESIGN.md §6 C05)",
-    "C06": "not built yet in this session (planned, DESIGN.md §6 C06)",
-    "C08": "not built yet in this session (planned, DESIGN.md §6 C08)",
-    "C09": "not built yet in this session (planned, DESIGN.md §6 C09)",
 }
